@@ -37,10 +37,12 @@ Verdict(e) ==
     ELSE IF e.ev # "run" THEN {}
     ELSE LET r == Replay(e.calls, 1, 0, "running") IN
          \* C01: every call returned a value, and the run ended in a terminal state
-         (IF r.ok /\ r.outcome \in {"layout", "error"} THEN {}
+         \* (a run may also be a prefix of the stages: then every call made returned, and the run is simply not over)
+         (IF r.ok /\ (r.outcome \in {"layout", "error"} \/ (e.prefix /\ r.outcome = "running")) THEN {}
           ELSE IF \E c \in ToSet(e.calls) : c.res = "panic" THEN {"Inv_C01_Total/panic"} ELSE {"Inv_C01_Total"})
          \* the one-call entry point returns too, with the same class of result
-         \cup (IF e.analyze = "panic" THEN {"Inv_C01_Total/panic"}
+         \cup (IF e.analyze = "skipped" THEN {}
+               ELSE IF e.analyze = "panic" THEN {"Inv_C01_Total/panic"}
                ELSE IF r.ok /\ r.outcome = "layout" /\ e.analyze # "layout" /\ e.stable THEN {"Inv_C01_Consistent"}
                ELSE IF r.ok /\ r.outcome = "error" /\ e.analyze # "error" /\ e.stable THEN {"Inv_C01_Consistent"}
                ELSE {})
